@@ -307,6 +307,10 @@ InsertH(t, k)    == RowsOk(t, 1) /\ Dml(t, InsertOp(ForUpdate(t), <<<<k, H>>>>),
 \* SELECT * FROM CSV(',', `t.csv`, 'UTF8') : the table function names the same file, hence the same loaded table
 SelectFn(t) == t # TempT /\ Select(t)
 
+\* the same file under another spelling of its path (./t.csv, the absolute path, with /./ or /sub/../ inside): one table
+SelectPath(t) == t # TempT /\ Select(t)
+InsertPath(t, k) == t # TempT /\ Insert1(t, k, 1)
+
 \* ALTER TABLE t SET ENCODING TO SJIS : a table attribute; the table is loaded for update and counts as changed
 \* (it has to be written in the new encoding), its rows stay; setting the value it already has does nothing
 SetEnc(t) ==
@@ -425,6 +429,8 @@ Do(a) ==
        [] a.act = "inserth"  -> InsertH(a.t, a.k)
        [] a.act = "selectfn" -> SelectFn(a.t)
        [] a.act = "setenc"   -> SetEnc(a.t)
+       [] a.act = "selectpath" -> SelectPath(a.t)
+       [] a.act = "insertpath" -> InsertPath(a.t, a.k)
        [] a.act = "createas" -> CreateAs(a.u, a.k)
        [] a.act = "callnoop" -> CallNoop
        [] a.act = "callins"  -> CallIns(a.t, a.k)
@@ -452,6 +458,8 @@ Actions ==
   \cup {A("inserth", t, k, 0) : t \in Tables, k \in Keys}
   \cup {A("selectfn", t, 0, 0) : t \in AllFiles}
   \cup {A("setenc", t, 0, 0) : t \in Tables}
+  \cup {A("selectpath", t, 0, x) : t \in AllFiles, x \in 1..4}          \* x: the spelling
+  \cup {A("insertpath", t, k, x) : t \in AllFiles, k \in Keys, x \in 1..4}
   \cup {A3("createas", u, k) : u \in Tables \ {NewFile}, k \in 0..3}
   \cup {A("callnoop", "", 0, 0)}
   \cup {A("callins", t, k, 0) : t \in Tables \ {NewFile}, k \in Keys}
